@@ -29,6 +29,7 @@ import PdshVerif.Hostlist.LemmasUniq
 import PdshVerif.Hostlist.LemmasFindFirst
 import PdshVerif.Hostlist.EditRefine
 import PdshVerif.Hostlist.EditRefineText
+import PdshVerif.Hostlist.EditRefineUniq
 
 namespace PdshVerif.C16
 open PdshVerif.Hostlist PdshVerif.Gen
@@ -190,6 +191,26 @@ theorem edit_refines_push_text (cfg : Cfg) (hfs : cfg.fixIterSuffix = true) (e :
   intro hx
   unfold EditSpec.push
   rw [hx]
+
+/-- UNIQ with the iterator live: whatever list `hostlist_uniq` leaves, IF it is free of duplicates
+    (the open finding F16-UNIQ is exactly the case where it is not: mixed widths, digit-ending
+    prefixes), it is an admissible result for the plain list — every distinct name once, none lost,
+    none invented — the counter is right and the iterator starts over at the first host.
+    `hreset`: F16-UNIQ-NORESET repaired, or the list has at least two records; `hb`: D26 repaired or
+    low bounds below 2^31; fewer than 2^31 hosts (`int` counters). -/
+theorem edit_refines_uniq (cfg : Cfg) (hfs : cfg.fixIterSuffix = true) (e : EL) (p : EditSpec.PL) (c : Nat)
+    (fresh : Bool) (h : Ref cfg e p c fresh)
+    (hb : cfg.fixCmpTrunc = true ∨ ∀ r ∈ e.ranges, r.lo < 2147483648) (hsm : e.hosts.length < 2147483648)
+    (hreset : cfg.fixUniqReset = true ∨ 2 ≤ e.rs.length)
+    (e' : EL) (hu : uniqE cfg e = some e') (hnd : e'.hosts.Nodup) :
+    EditSpec.uniq p e'.hosts = some ⟨e'.hosts, [(0, 0)]⟩ ∧ Ref cfg e' ⟨e'.hosts, [(0, 0)]⟩ 0 false :=
+  uniq_refines cfg hfs e p c fresh h hb hsm hreset e' hu hnd
+
+/-- `hostlist_uniq` keeps the counter and the record identities right (any list, any iterators) -/
+theorem uniq_count (cfg : Cfg) (e e' : EL) (hg : e.Good) (hid : e.IdsOk)
+    (hb : cfg.fixCmpTrunc = true ∨ ∀ r ∈ e.ranges, r.lo < 2147483648) (hsm : e.hosts.length < 2147483648)
+    (h : uniqE cfg e = some e') : e'.nhosts = (e'.hosts.length : Int) ∧ e'.IdsOk :=
+  ⟨(uniqE_keep cfg e e' hg hid hb hsm h).1.2, (uniqE_keep cfg e e' hg hid hb hsm h).2⟩
 
 /-! ### iterator scenarios (the recorded defects and their repairs) -/
 /-- run `hostlist_next` n times on iterator k -/
